@@ -62,7 +62,9 @@ func genPair(t *testing.T, n int) pair {
 func slotName(s int) string { return fmt.Sprintf("slot-%d", s) }
 
 // edit applies an adversarial change to the serialized storage and loads it back.
-func edit(t *testing.T, ks *keystorage.KeyStorage, f func(*key_storage.Storage)) *keystorage.KeyStorage {
+// inPlace: the edited bytes are loaded into the SAME KeyStorage value the API calls were made on (a long-lived object that
+// re-reads its serialized form), otherwise into a fresh one.
+func edit(t *testing.T, ks *keystorage.KeyStorage, inPlace bool, f func(*key_storage.Storage)) *keystorage.KeyStorage {
 	data, err := ks.MarshalBinary()
 	if err != nil {
 		t.Fatal(err)
@@ -82,6 +84,10 @@ func edit(t *testing.T, ks *keystorage.KeyStorage, f func(*key_storage.Storage))
 	}
 
 	res := &keystorage.KeyStorage{}
+	if inPlace {
+		res = ks
+	}
+
 	if err = res.UnmarshalBinary(out); err != nil {
 		t.Fatalf("unmarshal of the edited storage: %v", err)
 	}
@@ -89,7 +95,7 @@ func edit(t *testing.T, ks *keystorage.KeyStorage, f func(*key_storage.Storage))
 	return res
 }
 
-func runBehaviour(t *testing.T, tr *vh.Trace, tid string, beh []Cmd, pairs map[int]pair) {
+func runBehaviour(t *testing.T, tr *vh.Trace, tid string, beh []Cmd, pairs map[int]pair, inPlace bool) {
 	ks := &keystorage.KeyStorage{}
 	master := bytes.Repeat([]byte{0x5a}, 32)
 	copy(master, []byte(tid))
@@ -127,6 +133,10 @@ func runBehaviour(t *testing.T, tr *vh.Trace, tid string, beh []Cmd, pairs map[i
 
 			if len(data) > 0 {
 				fresh := &keystorage.KeyStorage{}
+				if inPlace {
+					fresh = ks
+				}
+
 				if uerr := fresh.UnmarshalBinary(data); uerr != nil {
 					err = uerr
 				} else {
@@ -134,15 +144,15 @@ func runBehaviour(t *testing.T, tr *vh.Trace, tid string, beh []Cmd, pairs map[i
 				}
 			}
 		case "alterBlob":
-			ks = edit(t, ks, func(st *key_storage.Storage) {
+			ks = edit(t, ks, inPlace, func(st *key_storage.Storage) {
 				if sl := st.KeySlots[slotName(c.S)]; sl != nil && len(sl.EncryptedKey) > 40 {
 					sl.EncryptedKey[len(sl.EncryptedKey)/2] ^= 0x01
 				}
 			})
 		case "backdoorRemove":
-			ks = edit(t, ks, func(st *key_storage.Storage) { delete(st.KeySlots, slotName(c.S)) })
+			ks = edit(t, ks, inPlace, func(st *key_storage.Storage) { delete(st.KeySlots, slotName(c.S)) })
 		case "backdoorAdd":
-			ks = edit(t, ks, func(st *key_storage.Storage) {
+			ks = edit(t, ks, inPlace, func(st *key_storage.Storage) {
 				slot := &key_storage.KeySlot{Algorithm: key_storage.Algorithm_PGP_AES_GCM_256}
 
 				switch c.V {
@@ -165,7 +175,7 @@ func runBehaviour(t *testing.T, tr *vh.Trace, tid string, beh []Cmd, pairs map[i
 				st.KeySlots[slotName(c.S)] = slot
 			})
 		case "alterTag":
-			ks = edit(t, ks, func(st *key_storage.Storage) {
+			ks = edit(t, ks, inPlace, func(st *key_storage.Storage) {
 				// every way of damaging the integrity tag counts, including removing it altogether
 				switch c.V {
 				case "strip":
@@ -214,6 +224,6 @@ func TestKeyStorage(t *testing.T) {
 	}
 
 	for i, b := range behs {
-		runBehaviour(t, tr, fmt.Sprintf("k#%d", i), b, pairs)
+		runBehaviour(t, tr, fmt.Sprintf("k#%d", i), b, pairs, i%2 == 1)
 	}
 }
